@@ -222,7 +222,9 @@ func CheckUciHistory(sc *Scenario, out *UciRunOut, res *RunResult) {
 		}
 		if c13 && !excl {
 			// depth limit: completes exactly d iterations unless single legal move
-			if g.limits.Depth > 0 && g.stopT < 0 && g.limits.Nodes == 0 && !g.limits.TimeControlled() && !g.limits.needsStop() {
+			// (a ponder search becomes an ordinary search with its limits at the ponderhit)
+			if g.limits.Depth > 0 && g.stopT < 0 && g.limits.Nodes == 0 && !g.limits.TimeControlled() &&
+				(!g.limits.needsStop() || (g.limits.Ponder && !g.limits.Infinite && g.hitT >= 0)) {
 				// (the root moves that count are the distinct legal ones of the
 				// searchmoves list, if there is one)
 				eff := len(legalRoot)
